@@ -107,7 +107,7 @@ func C10(tier string) {
 	crashGuard("C10", tier, "exploration")
 	r := ev.Begin("C10", tier, "exploration")
 	shapes := c10Shapes(tier)
-	r.Rule(fmt.Sprintf("complete product: %d source types x %d destination types x %d bounds shapes (origins negative/zero/positive for source and destination independently, empty, 1xN, Nx1, destination larger than source, source and destination as sub-images of larger parents) x parallelism {1,2,3,4,5,7,11,13,16,64,rows+5} x %d transforms, plus in-place runs where types match; plus a 130x110 image (14,300 pixels) for every type pair at three origin combinations x parallelism {1,2,4,13}; every byte of the destination parent's backing array is compared; distinct = configurations with a non-empty source", len(c10SrcKinds), len(c10DstKinds), len(shapes), len(imgTransforms)))
+	r.Rule(fmt.Sprintf("complete product: %d source types x %d destination types x %d bounds shapes (origins negative/zero/positive for source and destination independently, empty, 1xN, Nx1, destination larger than source, source and destination as sub-images of larger parents) x parallelism {1,2,3,4,5,7,11,13,16,64,rows+5} x %d transforms, plus in-place runs where types match, each also on neighbour-dependent data (pixel x+1 = what the transform makes of pixel x, or a copy of it, or fresh); plus a 130x110 image (14,300 pixels) for every type pair at three origin combinations x parallelism {1,2,4,13}; every byte of the destination parent's backing array is compared; distinct = configurations with a non-empty source", len(c10SrcKinds), len(c10DstKinds), len(shapes), len(imgTransforms)))
 	r.Assume("expected image = destination's own Set(dst.Min + p - src.Min, f(src.At(p))) over a byte-identical copy, i.e. the destination colour model's conversion as implemented by the standard library")
 
 	type job struct {
@@ -146,10 +146,15 @@ func C10(tier string) {
 				inplaceOK := (sk == dk && sk != "OpaqueDst") && sh.dstMin == sh.src.Min && sh.dstExtra == (image.Point{}) && sh.dstMargin == sh.srcMargin
 				if inplaceOK {
 					c10One(r, tr, sk, dk, sh, par, true)
-					evals++
+					c10OneData(r, tr, sk, dk, sh, par, true, true)
+					evals += 2
 					if !sh.src.Empty() {
-						distinct++
+						distinct += 2
 					}
+				}
+				if sk == dk && (par == 1 || par == 3) {
+					c10OneData(r, tr, sk, dk, sh, par, false, true)
+					evals++
 				}
 			}
 			if ji%4096 == 0 && (r.OutOfTime() || r.NViolations() > 30) {
@@ -200,13 +205,48 @@ func C10(tier string) {
 }
 
 func c10One(r *ev.Run, tr *imgTransform, sk, dk string, sh imgShape, par int, inPlace bool) {
+	c10OneData(r, tr, sk, dk, sh, par, inPlace, false)
+}
+
+// c10Chain rewrites the pixels of a row so that they depend on their left
+// neighbour through the transform under test: pixel x+1 holds, cyclically, a
+// fresh value, exactly what the transform makes of pixel x (as stored by the
+// image's own Set), or a copy of pixel x. An in-place implementation that
+// looks at a neighbour it has already overwritten, or a run/cache keyed on the
+// previous pixel, is wrong on such rows and right on unrelated data.
+func c10Chain(img draw.Image, b image.Rectangle, f func(color.Color) color.RGBA64) {
+	for y := b.Min.Y; y < b.Max.Y; y++ {
+		for x := b.Min.X + 1; x < b.Max.X; x++ {
+			switch (x + y) % 3 {
+			case 1:
+				img.Set(x, y, f(img.At(x-1, y)))
+			case 2:
+				img.Set(x, y, img.At(x-1, y))
+			}
+		}
+	}
+}
+
+func c10OneData(r *ev.Run, tr *imgTransform, sk, dk string, sh imgShape, par int, inPlace, chain bool) {
 	cs := c10Case{tr.name, sk, dk, sh.String(), par, inPlace}
 	key := fmt.Sprintf("%s/%s->%s", tr.name, sk, dk)
 	if inPlace {
 		key += "/in-place"
 	}
+	if chain {
+		key += "/neighbour-dependent-data"
+	}
 	src, srcPlanes := newImage(sk, sh.src, sh.srcMargin, 1)
 	srcCopy, _ := newImage(sk, sh.src, sh.srcMargin, 1)
+	if chain {
+		sd, ok1 := src.(draw.Image)
+		cd, ok2 := srcCopy.(draw.Image)
+		if !ok1 || !ok2 {
+			return
+		}
+		c10Chain(sd, sh.src, tr.f)
+		c10Chain(cd, sh.src, tr.f)
+	}
 	dstRect := image.Rectangle{Min: sh.dstMin, Max: sh.dstMin.Add(sh.src.Size()).Add(sh.dstExtra)}
 	var dst, exp draw.Image
 	var dstPlanes, expPlanes func() [][]uint8
